@@ -125,6 +125,34 @@ def big_bits(ex, args, ins):
     return (Slice(ptr, ln, nw, "math/big.Word"),)
 
 
+def big_bytes(ex, args, ins):
+    """Bytes(): big-endian, minimal length (symbolic): one guarded slice per possible length"""
+    from .values import Guarded
+    xv = _get(ex, args[0]).v
+    if not is_term(xv):
+        bs = list(abs(xv).to_bytes((abs(xv).bit_length() + 7) // 8, "big")) if xv else []
+        ptr = ex.alloc("uint8", label="big.Bytes", cells=bs, count=len(bs))
+        return (Slice(ptr, len(bs), len(bs), "uint8"),)
+    maxlen = ex.ctx.params.get("big_bytes_max", 32)
+    cases = []
+    for L in range(0, maxlen + 1):
+        if L == 0:
+            g = xv == 0
+            ptr = ex.alloc("uint8", label="big.Bytes(len 0)", cells=[], count=0)
+        else:
+            g = z3.And(xv >= 256 ** (L - 1), xv < 256 ** L)
+            bs = [z3.Int(ex.ctx.fresh_name("bb")) for _ in range(L)]
+            val = 0
+            for b in bs:
+                val = val * 256 + b
+            ex.ctx.add_fact(z3.Implies(g, z3.And([z3.And(b >= 0, b < 256) for b in bs] + [xv == val])))
+            ptr = ex.alloc("uint8", label="big.Bytes(len %d)" % L, cells=bs, count=L)
+        cases.append((g, Slice(ptr, L, L, "uint8")))
+    from .exec import Obligation
+    ex.ctx.obligations.append(Obligation("big.Int.Bytes: value fits %d bytes (encoder bound)" % maxlen, b_and(ex.guard, z3.Or(xv < 0, xv >= 256 ** maxlen)), "unwind"))
+    return (Guarded(cases),)
+
+
 def big_setuint64(ex, args, ins):
     _set(ex, args[0], args[1])
     return (args[0],)
@@ -159,7 +187,7 @@ def pool_put(ex, args, ins):
 INTRINSICS = {
     "(*math/big.Int).SetBytes": big_setbytes, "(*math/big.Int).Cmp": big_cmp, "(*math/big.Int).Set": big_set,
     "(*math/big.Int).Mod": big_mod, "(*math/big.Int).Bits": big_bits, "(*math/big.Int).SetUint64": big_setuint64,
-    "(*math/big.Int).Uint64": big_uint64, "(*math/big.Int).Sign": big_sign,
+    "(*math/big.Int).Uint64": big_uint64, "(*math/big.Int).Sign": big_sign, "(*math/big.Int).Bytes": big_bytes,
     "(*sync.Pool).Get": pool_get, "(*sync.Pool).Put": pool_put,
 }
 
